@@ -49,10 +49,19 @@ impl<T: Clone> Getter<T, E> for Sensor<T> {
         self.cur.borrow().clone()
     }
 }
+thread_local! {
+    /// Fault: while set, every scripted sensor's own `update()` fails with this error. (No stream is
+    /// supposed to drive its input's update; one that does and mishandles the failure shows here.)
+    pub static SENSOR_UPDATE_ERR: Cell<Option<u8>> = const { Cell::new(None) };
+}
+
 impl<T: Clone> Updatable<E> for Sensor<T> {
     fn update(&mut self) -> NothingOrError<E> {
         self.updates.set(self.updates.get() + 1);
-        Ok(())
+        match SENSOR_UPDATE_ERR.with(|c| c.get()) {
+            Some(k) => Err(err_of(k)),
+            None => Ok(()),
+        }
     }
 }
 
